@@ -45,7 +45,7 @@ func TestCheck(t *testing.T) {
 		r := vh.NewRand(env.Seed)
 		n := env.N(250, 8)
 		for i := 0; i < n; i++ {
-			scs = append(scs, sysrun.Gen(r.Fork(), sysrun.GenOpts{MaxOps: 10, Faults: i%2 == 0, Silences: i%3 == 1, MultiInt: true, Routes: i%3 == 2, Flap: i%7 == 3}))
+			scs = append(scs, sysrun.Gen(r.Fork(), sysrun.GenOpts{MaxOps: 10, Faults: i%2 == 0, Silences: i%3 == 1, MultiInt: true, Routes: i%3 == 2, Flap: i%7 == 3, RouteLbl: i%4 == 1}))
 			if i%3 == 2 {
 				// child routes with their own group_wait / group_interval (own generator: the stream of r is untouched)
 				sysrun.VaryRouteTimers(vh.NewRand(env.Seed*1000003+uint64(i)), &scs[len(scs)-1])
